@@ -69,6 +69,7 @@ fn main() {
     let own_scratch = std::env::var("LNV_SCRATCH").is_err();
     match prop.as_str() {
         "C13" => c13::run(&tier, seed, &out),
+        "C10" | "C11" | "C12" => fsprops::run(&prop, &tier, seed, &out),
         "C19" => c19::run(&tier, seed, &out),
         "C20" => c20::run(&tier, seed, &out),
         "C05" | "C06" | "C07" | "C08" | "C14" | "C15" | "C17" => hirprops::run(&prop, &tier, seed, &out),
